@@ -30,12 +30,15 @@ def tagname(t):
     return re.sub(r'[^a-z]', '', t.replace('codec.', '')) or 'default'
 
 
-def classify(tags, fields, typ, a_line, b_line):
+def classify(tags, fields, typ, a_line, b_line, helpers_match_models=True):
     """stable root-cause class of one differing case (variant `tags` vs default)"""
     t = set(tags.split())
     fs = set(fields)
     if 'enc' in fs and 'omitempty' in typ and 'codec.safe' in t:
-        return 'omitempty-emptiness:unsafe-vs-safe'
+        # F05-1 is the divergence the two MODELS exhibit (C05_isempty_refuted). It explains a variant
+        # difference only while each build's isEmptyValue still matches its model.
+        if not helpers_match_models:
+            return 'omitempty-emptiness:unsafe-vs-safe:helper-no-longer-matches-its-model'
     if fs and all(f.startswith('bad') for f in fs) and 'codec.notfastpath' in t and re.search(r'\[\d*\]uint8', typ):
         return 'damaged-input:byte-slice-or-array-destination:fastpath-vs-reflection'
     if any(f.startswith('<missing') for f in fs):
@@ -55,17 +58,20 @@ def main(chk):
         chk.cov['obligations'] = sum(len(chk.theorems_of(f)) for f in PROP_FILES)
         chk.cov['discharged'] = 0
 
+    helpers_ok = ok_c
     # ---- the isEmptyValue pair: each build's helper against its own model ----
     for tags, label in (('verif', 'unsafe'), ('verif codec.safe', 'safe')):
         exe = os.path.join(chk.bdir, 'c05e.' + label)
         rc, o = vlib.sh(['go', 'build', '-tags', tags, '-o', exe, './cmd/c05e'], cwd=vlib.HARNESS, timeout=900)
         if rc != 0:
             chk.broken.append('harness cmd/c05e does not build with tags [%s]: %s' % (tags, o.strip()[-300:]))
+            helpers_ok = False
             continue
         cdir = os.path.join(chk.bdir, 'cases_c05e_' + label)
         summ, out = chk.run_harness(exe, ['-n', 150 if tier == 'quick' else 3000, '-cases', cdir], timeout=900)
         if summ is None:
             chk.broken.append('harness cmd/c05e (%s) crashed: %s' % (label, out.strip()[-300:]))
+            helpers_ok = False
             continue
         chk.absorb(summ, label='c05e(' + label + ')')
         chk.absorb_failures(summ)
@@ -76,6 +82,8 @@ def main(chk):
             chk.cov['model_mismatches'] += len(mism)
             for e in errs:
                 chk.broken.append('correspondence c05e(%s): model evaluation failed: %s' % (label, e))
+            if mism or errs:
+                helpers_ok = False
             if mism:
                 chk.broken.append('correspondence c05e(%s): isEmptyValue of the %s build differs from its model on %d case(s), e.g. %s case id %d (%s)'
                                   % (label, label, len(mism), mism[0][0], mism[0][1], cdir))
@@ -144,7 +152,7 @@ def main(chk):
         compared += len(other)
         for (idx, fmt, opts, typ, fields, al, bl) in c05diff.diff(base, other):
             ndiff += 1
-            cls = classify(t, fields, typ, al, bl)
+            cls = classify(t, fields, typ, al, bl, helpers_ok)
             chk.report('counterexample',
                        'build variant [%s] and the default build disagree (%s) on the same (format, options, type, value/input)' % (t, cls),
                        case={'tags': t, 'index': idx, 'format': fmt, 'opts': opts, 'type': typ, 'fields': fields,
